@@ -22,7 +22,9 @@ def _find_avg(prog):
     return mc, fn
 
 
-def run(ctx):
+def averaging_rules(ctx, rule):
+    """R1/R2: how average_of_conformations enumerates, de-duplicates, sums and
+    divides.  ``rule(name)`` maps R1/R2 to the caller's rule id."""
     prog = ctx.prog
     mc, fn = _find_avg(prog)
     clones = [s for s in walk_no_nested(fn) if isinstance(s, ast.Assign)
@@ -72,7 +74,7 @@ def run(ctx):
             ok = len(apps) == 1 and st._parent is accum._parent and \
                 inits[0]._parent is clones[0]._parent
             why = 'length of %s, appended beside the accumulation' % lst
-    ctx.ob('C08.R1', 'divisor:counts-contributors', ok,
+    ctx.ob(rule('R1'), 'divisor:counts-contributors', ok,
            'the accumulated group is divided by the number of conformations that contributed '
            '(%s); dividing by the number of all conformations halves a group present in one of '
            'two conformations' % why, mc, div)
@@ -80,7 +82,7 @@ def run(ctx):
     facts = fact_texts(accum, fn)
     lookup_var = norm(accum.value)
     found_ok = any(p and t == lookup_var for t, p in facts)
-    ctx.ob('C08.R1', 'accumulate:iff-found', found_ok,
+    ctx.ob(rule('R1'), 'accumulate:iff-found', found_ok,
            'the group is added exactly when the look-up in that conformation succeeded',
            mc, accum)
     lookup = [s for s in walk_no_nested(fn) if isinstance(s, ast.Assign)
@@ -95,14 +97,14 @@ def run(ctx):
             name_loop = loops[0]
             recv = norm(lookup[0].value.func.value)
             look_ok = recv == 'self.conformations[%s]' % norm(name_loop.target)
-    ctx.ob('C08.R1', 'lookup:every-conformation', look_ok,
+    ctx.ob(rule('R1'), 'lookup:every-conformation', look_ok,
            'the candidate is looked up with find_group in every named conformation', mc,
            lookup[0] if lookup else fn)
 
     # ------------------------------------------------------------------ R2
     enum = [c for c in calls_in(fn, nested=False) if last_attr(c) == 'get_groups_for_calculations']
     if len(enum) != 1:
-        raise AnalysisError('C08.R2: candidate enumeration call not found')
+        raise AnalysisError(rule('R2') + ': candidate enumeration call not found')
     recv = enum[0].func.value
     loops = enclosing_loops(enum[0], fn)
     cand_loop = next((l for l in walk_no_nested(fn) if isinstance(l, ast.For)
@@ -128,7 +130,7 @@ def run(ctx):
             if tnames & through and '[0]' not in norm(recv) and \
                     not any('[0]' in norm(s.value) for s in recv_defs.values()):
                 union_ok = True
-    ctx.ob('C08.R2', 'candidates:union-over-conformations', union_ok,
+    ctx.ob(rule('R2'), 'candidates:union-over-conformations', union_ok,
            'the groups to average are enumerated from every conformation, not from one '
            'selected by a constant index (%s); a group living only in another conformation '
            'would vanish from the report' % detail, mc, enum[0])
@@ -143,16 +145,22 @@ def run(ctx):
                 for c in calls_in(stmt.test):
                     if last_attr(c) == 'find_group' and [norm(a) for a in c.args] == [cand_var]:
                         dedup = True
-    ctx.ob('C08.R2', 'candidates:de-duplicated', dedup or not union_ok,
+    ctx.ob(rule('R2'), 'candidates:de-duplicated', dedup or not union_ok,
            'a candidate already averaged (found by the same find_group key in the average '
            'container) is skipped, so no group is reported twice', mc, cand_loop or fn)
     # the averaged group is appended once to the average container
     apps = [c for c in calls_in(fn, nested=False) if last_attr(c) == 'append'
             and norm(c.func.value).endswith('.groups')]
-    ctx.ob('C08.R2', 'average:appended-once',
+    ctx.ob(rule('R2'), 'average:appended-once',
            len(apps) == 1 and norm(apps[0].args[0]) == acc,
            'each averaged group is appended exactly once to the average container', mc,
            apps[0] if apps else fn)
+    return dict(prog=prog, mc=mc)
+
+
+def run(ctx):
+    shared = averaging_rules(ctx, lambda name: 'C08.' + name)
+    prog, mc = shared['prog'], shared['mc']
 
     # ------------------------------------------------------------------ R3
     common.check_linear_fields(ctx, 'C08.R3', prog)
